@@ -1,6 +1,7 @@
 CONSTANTS Urls <- UrlsC
           Texts <- TextsC
           Cfgs <- CfgsC
+          RebuildOnlyIfChanged = FALSE
           IdentsAccumulate = FALSE
           ForgetIdentRecord = TRUE
           ConfigRebuilds = TRUE
